@@ -2023,6 +2023,11 @@ def extract_graph(schd, case, flow_text=None):
                 'children_ord': {out: [[c.name, int(c.point), bool(c.is_abs)] for c in cs]
                                  for out, cs in itask.graph_children.items()},
                 'next_parentless': None if nxt is None else int(nxt),
+                # additive (C30): the graph children per output in the order `spawn_on_output` walks them (the list
+                # order of TaskProxy.graph_children; 'children' above is sorted) -- the order decides what an
+                # intermediate DB commit (absolute trigger) writes
+                'children_seq': {out: [[c.name, int(c.point), bool(c.is_abs)] for c in cs]
+                                 for out, cs in itask.graph_children.items()},
                 # additive (C01 judge): whether the instance is parentless (TaskDef.is_parentless); the model
                 # does not read it
                 'parentless': bool(tdef.is_parentless(pt, cfg.start_point)),
